@@ -86,7 +86,7 @@ func (rn *plugRunner) report(sp *ref.Space, plug int, path string, seq []int, de
 		n := len(rn.res.Violations)
 		rn.res.ViolateInput(path+"/"+sig, plugNames[plug]+" plugin: "+desc, sp.Input(seq, def, ni, path))
 		if len(rn.res.Violations) > n {
-			rn.res.Violations[n].Cost = len(seq) // the merged report keeps the shortest counterexample
+			rn.res.Violations[n].Cost = ref.Cost(seq) // the merged report keeps the shortest, simplest counterexample
 		}
 	}
 }
